@@ -67,7 +67,7 @@ func propagateAttachmentOffsets(pos []GlyphPosition, i int, direction Direction)
 
 	j := i + int(chain)
 
-	if j >= len(pos) {
+	if j < 0 || j >= len(pos) {
 		return
 	}
 
@@ -86,6 +86,9 @@ func propagateAttachmentOffsets(pos []GlyphPosition, i int, direction Direction)
 		pos[i].YOffset += pos[j].YOffset
 
 		// assert (j < i);
+		if j >= i { // invalid attachment chain
+			return
+		}
 		if direction.isForward() {
 			for _, p := range pos[j:i] {
 				pos[i].XOffset -= p.XAdvance
@@ -119,6 +122,9 @@ func positionFinishOffsetsGPOS(buffer *Buffer) {
 
 func applyRecurseGPOS(c *otApplyContext, lookupIndex uint16) bool {
 	gpos := c.font.face.GPOS
+	if int(lookupIndex) >= len(gpos.Lookups) { // invalid font: no such lookup
+		return false
+	}
 	l := lookupGPOS(gpos.Lookups[lookupIndex])
 	return c.applyRecurseLookup(lookupIndex, l)
 }
@@ -143,6 +149,9 @@ func (c *otApplyContext) applyGPOS(table tables.GPOSLookup) bool {
 		case tables.SinglePosData1:
 			c.applyGPOSValueRecord(inner.ValueFormat, inner.ValueRecord, glyphPos)
 		case tables.SinglePosData2:
+			if index >= len(inner.ValueRecords) { // the coverage index is not bounded by the coverage length for an invalid font
+				return false
+			}
 			c.applyGPOSValueRecord(inner.ValueFormat, inner.ValueRecords[index], glyphPos)
 		}
 		buffer.idx++
@@ -285,6 +294,9 @@ func (c *otApplyContext) applyGPOSPair1(inner tables.PairPosData1, index int) bo
 	buffer := c.buffer
 	skippyIter := &c.iterInput
 	pos := skippyIter.idx
+	if index >= len(inner.PairSets) { // the coverage index is not bounded by the coverage length for an invalid font
+		return false
+	}
 	set := inner.PairSets[index]
 	record, ok := set.FindGlyph(gID(buffer.Info[skippyIter.idx].Glyph))
 	if !ok {
@@ -345,6 +357,9 @@ func (c *otApplyContext) applyGPOSPair2(inner tables.PairPosData2) bool {
 func (c *otApplyContext) applyGPOSCursive(data tables.CursivePos, covIndex int) bool {
 	buffer := c.buffer
 
+	if covIndex >= len(data.EntryExits) { // the coverage index is not bounded by the coverage length for an invalid font
+		return false
+	}
 	thisRecord := data.EntryExits[covIndex]
 	if thisRecord.EntryAnchor == nil {
 		return false
@@ -359,6 +374,10 @@ func (c *otApplyContext) applyGPOSCursive(data tables.CursivePos, covIndex int) 
 
 	prevIndex, ok := data.Cov().Index(gID(buffer.Info[skippyIter.idx].Glyph))
 	if !ok {
+		buffer.unsafeToConcatFromOutbuffer(skippyIter.idx, buffer.idx+1)
+		return false
+	}
+	if prevIndex >= len(data.EntryExits) {
 		buffer.unsafeToConcatFromOutbuffer(skippyIter.idx, buffer.idx+1)
 		return false
 	}
@@ -498,6 +517,10 @@ func (c *otApplyContext) getAnchor(anchor tables.Anchor, glyph GID) (x, y float3
 
 func (c *otApplyContext) applyGPOSMarks(marks tables.MarkArray, markIndex, glyphIndex int, anchors tables.AnchorMatrix, glyphPos int) bool {
 	buffer := c.buffer
+	if markIndex >= len(marks.MarkRecords) || markIndex >= len(marks.MarkAnchors) {
+		// the coverage index is not bounded by the coverage length for an invalid font
+		return false
+	}
 	markClass := marks.MarkRecords[markIndex].MarkClass
 	markAnchor := marks.MarkAnchors[markIndex]
 
@@ -674,6 +697,9 @@ func (c *otApplyContext) applyGPOSMarkToMark(data tables.MarkMarkPos, mark1Index
 	return false
 
 good:
+	if data.Mark2Coverage == nil { // null offset: nothing is covered
+		return false
+	}
 	mark2Index, ok := data.Mark2Coverage.Index(gID(buffer.Info[j].Glyph))
 	if !ok {
 		return false
